@@ -78,9 +78,17 @@ class Msg:
         elif oneof is not None:
             names = [o.name for o in self.proto.oneof_decl]
             if oneof not in names:
-                # real oneofs must precede synthetic ones: insert before the first synthetic
-                self.proto.oneof_decl.add().name = oneof
-                names.append(oneof)
+                # real oneofs must precede synthetic ones (protoc's order; the descriptor pool insists on it):
+                # insert before the first synthetic one and renumber the fields that pointed at or behind that slot
+                syn = [g.oneof_index for g in self.proto.field if g.proto3_optional and g.HasField("oneof_index")]
+                at = min(syn) if syn else len(names)
+                names.insert(at, oneof)
+                del self.proto.oneof_decl[:]
+                for n in names:
+                    self.proto.oneof_decl.add().name = n
+                for g in self.proto.field:
+                    if g is not f and g.HasField("oneof_index") and g.oneof_index >= at:
+                        g.oneof_index += 1
             f.oneof_index = names.index(oneof)
         if required:
             f.options.Extensions[field_behavior_pb2.field_behavior].append(field_behavior_pb2.REQUIRED)
